@@ -37,3 +37,29 @@ Definition c01_hcase := (list N * list N)%type.
 Definition c01_hok (c : c01_hcase) : bool :=
   let '(raw, enc) := c in bytes_eqb (hex_encode raw) enc &&
   match hex_decode enc with Some r => bytes_eqb r raw | None => false end.
+
+(* chains of hop identities in one announcement: (identity, digest) per hop, outermost first, and
+   the identity the router's state binds to each hop's address afterwards *)
+Definition chain_oracle (l : list (pubaddr * option (list N))) : list N -> option (list N -> list N) :=
+  fun name =>
+    if existsb (fun x => bytes_eqb (a_hash (fst x)) name && match snd x with Some _ => true | None => false end) l
+    then Some (fun inp =>
+      match find (fun x => bytes_eqb (a_hash (fst x)) name &&
+                           bytes_eqb (digest_input (a_type (fst x)) (a_key (fst x)) (a_easing (fst x))) inp) l with
+      | Some (_, Some d) => d
+      | _ => []
+      end)
+    else None.
+Definition pub_eqb (a b : pubaddr) : bool :=
+  bytes_eqb (a_ip a) (a_ip b) && bytes_eqb (a_hash a) (a_hash b) && bytes_eqb (a_type a) (a_type b) &&
+  bytes_eqb (a_key a) (a_key b) && (a_easing a =? a_easing b).
+Definition c01_ccase := (list (pubaddr * option (list N)) * list (option pubaddr))%type.
+Definition c01_cok (c : c01_ccase) : bool :=
+  let '(l, obs) := c in
+  let st := fst (admit_chain (chain_oracle l) [] (map fst l)) in
+  Nat.eqb (length l) (length obs) &&
+  forallb (fun p => match lookup_binding st (a_ip (fst (fst p))), snd p with
+                    | Some a, Some b => pub_eqb a b
+                    | None, None => true
+                    | _, _ => false
+                    end) (combine l obs).
